@@ -77,6 +77,52 @@ fn field_unique<F: Tiny + CanonicalSerializeWithFlags + CanonicalDeserializeWith
     assert!(ok);
 }
 
+/// ALL points x 4 modes, AFFINE only (one serialization, one deserialization per query)
+fn sw_affine_roundtrip<C: SWCurveConfig + Toy, const CAP: usize>(subgroup_only: bool)
+where
+    C::BaseField: Tiny,
+{
+    let i = any_index::<C>();
+    assume(!subgroup_only || C::T.insub[i]);
+    let (c, v) = any_mode();
+    let a = sw_affine::<C>(i);
+    let mut b1 = [0u8; CAP];
+    let mut w1: &mut [u8] = &mut b1[..];
+    let r1 = a.serialize_with_mode(&mut w1, c);
+    let n1 = CAP - w1.len();
+    let fbytes = (<C::BaseField as Tiny>::BITS as usize + 2 + 7) / 8;
+    let xbytes = (<C::BaseField as Tiny>::BITS as usize + 7) / 8;
+    let want = match c {
+        Compress::Yes => fbytes,
+        Compress::No => xbytes + fbytes,
+    };
+    let back_a = sw::Affine::<C>::deserialize_with_mode(&b1[..n1], c, v);
+    crate::cover!(i == 0);
+    crate::cover!(i != 0 && C::T.pts[i].1 == 0);
+    crate::cover!(i != 0 && C::T.pts[i].1 > C::T.p / 2);
+    let ok = r1.is_ok() && n1 == want && a.serialized_size(c) == want && matches!(back_a, Ok(q) if sw_aff_is(&q, i));
+    assert!(ok);
+}
+/// projective points (ALL rescalings) serialize to the same bytes as their affine form, at the advertised size
+fn sw_proj_bytes<C: SWCurveConfig + Toy, const CAP: usize>()
+where
+    C::BaseField: Tiny,
+{
+    let i = any_index::<C>();
+    let c = if any::<bool>() { Compress::Yes } else { Compress::No };
+    let a = sw_affine::<C>(i);
+    let p = sw_proj::<C>(i, any_nz(C::T.p));
+    let mut b1 = [0u8; CAP];
+    let mut b2 = [0u8; CAP];
+    let mut w1: &mut [u8] = &mut b1[..];
+    let mut w2: &mut [u8] = &mut b2[..];
+    let r1 = a.serialize_with_mode(&mut w1, c);
+    let r2 = p.serialize_with_mode(&mut w2, c);
+    let (n1, n2) = (CAP - w1.len(), CAP - w2.len());
+    crate::cover!(i != 0);
+    let ok = r1.is_ok() && r2.is_ok() && n1 == n2 && b1 == b2 && p.serialized_size(c) == n2;
+    assert!(ok);
+}
 /// ALL points x 4 modes: affine and projective serialize to exactly serialized_size bytes and deserialize to the same point
 fn sw_point_roundtrip<C: SWCurveConfig + Toy, const CAP: usize>(subgroup_only: bool)
 where
@@ -107,6 +153,31 @@ where
     crate::cover!(i != 0 && C::T.pts[i].1 > C::T.p / 2);
     let mut ok = r1.is_ok() && r2.is_ok() && n1 == want && n2 == want && a.serialized_size(c) == want && p.serialized_size(c) == want && b1 == b2;
     ok &= matches!(back_a, Ok(q) if sw_aff_is(&q, i)) && matches!(back_p, Ok(q) if sw_is(&q, i));
+    assert!(ok);
+}
+fn te_affine_roundtrip<C: TECurveConfig + Toy, const CAP: usize>(subgroup_only: bool)
+where
+    C::BaseField: Tiny,
+{
+    let i = any_index::<C>();
+    assume(!subgroup_only || C::T.insub[i]);
+    let (c, v) = any_mode();
+    let a = te_affine::<C>(i);
+    let mut b1 = [0u8; CAP];
+    let mut w1: &mut [u8] = &mut b1[..];
+    let r1 = a.serialize_with_mode(&mut w1, c);
+    let n1 = CAP - w1.len();
+    let fbytes = (<C::BaseField as Tiny>::BITS as usize + 1 + 7) / 8;
+    let xbytes = (<C::BaseField as Tiny>::BITS as usize + 7) / 8;
+    let want = match c {
+        Compress::Yes => fbytes,
+        Compress::No => 2 * xbytes,
+    };
+    let back_a = te::Affine::<C>::deserialize_with_mode(&b1[..n1], c, v);
+    crate::cover!(i == 0);
+    crate::cover!(C::T.pts[i].0 == 0 && i != 0);
+    crate::cover!(C::T.pts[i].0 > C::T.p / 2);
+    let ok = r1.is_ok() && n1 == want && a.serialized_size(c) == want && matches!(back_a, Ok(q) if q == a);
     assert!(ok);
 }
 fn te_point_roundtrip<C: TECurveConfig + Toy, const CAP: usize>(subgroup_only: bool)
@@ -176,10 +247,22 @@ crate::harnesses! { REG;
     /// thorough required timeout=2400 unwindset=sw_double_and_add:5,>::pow:6,SqrtPrecomputation:7 | SW cofactor 4 over F_13: ALL points of the prime-order subgroup (identity included) x 4 modes, affine and projective (ALL rescalings): round trip, bytes written == serialized_size == advertised size
     #[unwind(70)]
     fn c09_sw_points_cof4() { sw_point_roundtrip::<SwCof4, 3>(true) }
-    /// quick required unwindset=sw_double_and_add:5,>::pow:6,SqrtPrecomputation:7 | SW a=0 (cofactor 1, order 19): ALL points x 4 modes, affine and projective
+    /// quick required unwindset=sw_double_and_add:5,>::pow:6,SqrtPrecomputation:7 | SW a=0 (cofactor 1, order 19): ALL affine points (identity, both signs of y) x 4 modes: round trip, bytes written == serialized_size == advertised size
+    #[unwind(70)]
+    fn c09_sw_affine_a0() { sw_affine_roundtrip::<SwA0, 3>(false) }
+    /// quick required unwindset=sw_double_and_add:5,>::pow:6,SqrtPrecomputation:7 | SW cofactor 4: ALL affine points of the prime-order subgroup x 4 modes (y = 0 point excluded by the subgroup; identity included)
+    #[unwind(70)]
+    fn c09_sw_affine_cof4() { sw_affine_roundtrip::<SwCof4, 3>(true) }
+    /// quick required | SW cofactor 4: ALL points in ALL Jacobian rescalings serialize (both compression modes) to the same bytes as their affine form, at the advertised size
+    #[unwind(20)]
+    fn c09_sw_proj_bytes() { sw_proj_bytes::<SwCof4, 3>() }
+    /// thorough required timeout=3000 unwindset=sw_double_and_add:5,>::pow:6,SqrtPrecomputation:7 | SW a=0: ALL points x 4 modes, affine and projective serialization and deserialization in one query
     #[unwind(70)]
     fn c09_sw_points_a0() { sw_point_roundtrip::<SwA0, 3>(false) }
-    /// quick required unwindset=TECurveConfig>::mul_:5,>::pow:6,SqrtPrecomputation:7 | TE complete cofactor 4 over F_13: ALL subgroup points x 4 modes, affine and projective; x = 0 sign edge case included
+    /// quick required unwindset=TECurveConfig>::mul_:5,>::pow:6,SqrtPrecomputation:7 | TE complete cofactor 4 over F_13: ALL affine subgroup points x 4 modes; x = 0 sign edge case included
+    #[unwind(70)]
+    fn c09_te_affine_complete() { te_affine_roundtrip::<TeC, 3>(true) }
+    /// thorough required timeout=3000 unwindset=TECurveConfig>::mul_:5,>::pow:6,SqrtPrecomputation:7 | TE complete: ALL subgroup points x 4 modes, affine and projective in one query
     #[unwind(70)]
     fn c09_te_points_complete() { te_point_roundtrip::<TeC, 3>(true) }
     /// thorough required unwindset=sw_double_and_add:5,>::pow:6,SqrtPrecomputation:7,TECurveConfig>::mul_:5,>::pow:6,SqrtPrecomputation:7 | SW a != 0 (order 17) and TE cofactor 8 over F_17: ALL (subgroup) points x 4 modes
